@@ -437,6 +437,7 @@ htp_status_t htp_connp_RES_BODY_CHUNKED_LENGTH(htp_connp_t *connp) {
 
                 connp->out_state = htp_connp_RES_BODY_IDENTITY_STREAM_CLOSE;
                 connp->out_tx->response_transfer_coding = HTP_CODING_IDENTITY;
+                HTP_VERIF_TRACE(connp, 7, (intptr_t) connp->out_tx, len);
 
                 htp_log(connp, HTP_LOG_MARK, HTP_LOG_ERROR, 0,
                         "Response chunk encoding: Invalid chunk length: %"PRId64"",
@@ -848,6 +849,11 @@ htp_status_t htp_connp_RES_HEADERS(htp_connp_t *connp) {
                 lfcrending = 0;
                 if (connp->out_next_byte == CR) {
                     // hanldes LF-CR sequence as end of line
+                    // (trace: the LF itself ended a CR LF whose CR arrived in an earlier chunk)
+                    if ((connp->out_current_read_offset == 1) && (connp->out_buf != NULL) && (connp->out_buf_size > 0)
+                            && (connp->out_buf[connp->out_buf_size - 1] == CR)) {
+                        HTP_VERIF_TRACE(connp, 1, (intptr_t) connp->out_tx, 0);
+                    }
                     OUT_COPY_BYTE_OR_RETURN(connp);
                     lfcrending = 1;
                 }
@@ -1089,6 +1095,7 @@ htp_status_t htp_connp_RES_LINE(htp_connp_t *connp) {
                     return HTP_OK;
                 }
                 connp->out_tx->response_content_encoding_processing = HTP_COMPRESSION_NONE;
+                HTP_VERIF_TRACE(connp, 6, (intptr_t) connp->out_tx, len);
 
                 connp->out_current_consume_offset = connp->out_current_read_offset;
                 htp_status_t rc = htp_tx_res_process_body_data_ex(connp->out_tx, data, len + chomp_result);
@@ -1168,6 +1175,7 @@ htp_status_t htp_connp_RES_FINALIZE(htp_connp_t *connp) {
     if (htp_treat_response_line_as_body(data, bytes_left)) {
         // Interpret remaining bytes as body data
         htp_log(connp, HTP_LOG_MARK, HTP_LOG_WARNING, 0, "Unexpected response body");
+        HTP_VERIF_TRACE(connp, 5, (intptr_t) connp->out_tx, bytes_left);
         htp_status_t rc = htp_tx_res_process_body_data_ex(connp->out_tx, data, bytes_left);
         htp_connp_res_clear_buffer(connp);
         return rc;
